@@ -231,14 +231,12 @@ def check(prog, run):
                                   file, init.node.lineno, init.qualname)
                     continue
                 # and str() shows those very values
-                shown = False
-                for ev in fm:
-                    vals = [norm_int(a) for a in ev["args"]]
-                    has_key = any(isinstance(v, Sym) and v.bits == want_key for v in vals)
-                    comb = sym_binop("+", sym_binop("<<", want_asc, 8), want_ascq)
-                    has_code = any(isinstance(v, Sym) and v.bits == comb.bits for v in vals)
-                    if has_key and has_code:
-                        shown = True
+                # (the text may be put together in one step or in several: what matters is that both values are printed)
+                vals = [norm_int(a) for ev in fm for a in ev["args"]]
+                has_key = any(isinstance(v, Sym) and v.bits == want_key for v in vals)
+                comb = sym_binop("+", sym_binop("<<", want_asc, 8), want_ascq)
+                has_code = any(isinstance(v, Sym) and v.bits == comb.bits for v in vals)
+                shown = has_key and has_code
                 if shown:
                     run.ok("reported-codes-at-spc-positions", "SCSICheckCondition %s" % c)
                 else:
